@@ -55,9 +55,73 @@ def conv_kind(cv):
     return "?"
 
 
+def concurrent_decoding_sessions(chk):
+    """two receivers in one process report different values of the same enumerated function at the same instant: the
+    two reader threads decode through the converter they share (it sits on the class-level function declaration).  In
+    these sessions every source line of ynca/converters.py is a scheduling point, so the threads interleave statement by
+    statement inside the converter; each object must read the decoding of what ITS device said."""
+    from .. import conntrace as CT
+    from ..subharness import canon_value, typed_decoding
+
+    rng = random.Random(chk.seed + 404)
+    for k in range(15 if chk.tier == "quick" else 250):
+        case = {"seed": rng.randrange(1 << 30), "switch_prob": rng.choice([0.3, 0.6, 0.9]), "rounds": rng.randrange(12, 30), "function": rng.choice(["PWR", "MUTE", "INP", "SOUNDPRG"])}
+        s = CT.Session(case["seed"], respond=lambda line, idx: [], latency_us=0, switch_prob=case["switch_prob"])
+        s.sim.trace_modules = {"ynca.converters"}
+        bad = []
+
+        def body(s, case=case, bad=bad):
+            from ynca.subunits.zone import Main
+
+            c = s.connect()
+            m1 = Main(c)
+            m1._initialized = True
+            stop = s.start_decoy(random.Random(case["seed"] + 1), n_ops=0)
+            try:
+                inner(s, c, m1, stop)
+            finally:
+                stop()
+                c.close()
+
+        def inner(s, c, m1, stop, case=case, bad=bad):
+            from ynca.subunits.zone import Main
+            with s.sim.decoy():
+                m2 = Main(s.decoy_conn)
+                m2._initialized = True
+            conv = m1.function_handlers[case["function"]].function.converter
+            vr0 = random.Random(case["seed"] + 3)
+            dt = getattr(conv, "datatype", None) or next((getattr(x, "datatype", None) for x in getattr(conv, "_converters", []) if getattr(x, "datatype", None)), None)
+            texts = [m.value for n, m in dt.__members__.items() if n != "UNKNOWN"]
+            texts = vr0.sample(texts, 2)  # two values only: the same text keeps coming back, on either connection
+            s.sleep(0.3)
+            vr = random.Random(case["seed"] + 2)
+            for r in range(case["rounds"]):
+                a, b = vr.choice(texts), vr.choice(texts)
+                t = s.sim.now + 50_000
+                s.dev.emit_at(t, f"@MAIN:{case['function']}={a}\r\n".encode(), cause=None)
+                s.decoy_dev.emit_at(t, f"@MAIN:{case['function']}={b}\r\n".encode(), cause=None)
+                s.sleep(0.1)
+                got1 = canon_value(m1.function_handlers[case["function"]].value)
+                got2 = canon_value(m2.function_handlers[case["function"]].value)
+                want1, want2 = canon_value(typed_decoding(conv, a)), canon_value(typed_decoding(conv, b))
+                if got1 != want1 or got2 != want2:
+                    bad.append((a, b, got1, got2, want1, want2))
+                    break
+
+        s.run(body)
+        chk.count_case({"concurrent_decoding": case}, True)
+        chk.cov["concurrent_decoding_line_points"] = chk.cov.get("concurrent_decoding_line_points", 0) + getattr(s.sim, "n_line_points", 0)
+        if s.sim.failure is not None:
+            chk.violation("C04:concurrent-no-termination", f"the session never came to rest: {s.sim.failure}", {"concurrent_decoding_case": case})
+        elif bad:
+            a, b, g1, g2, w1, w2 = bad[0]
+            chk.violation("C04:concurrent-decoding", f"two receivers reported @MAIN:{case['function']}={a} and ={b} at the same instant: the two objects read {g1!r} and {g2!r}, the typed decodings are {w1!r} and {w2!r}", {"concurrent_decoding_case": case})
+
+
 def run(chk: Check):
     rng = random.Random(chk.seed)
     built = chk.build(PROP_FILE)
+    concurrent_decoding_sessions(chk)
     classes, table, enums = collect()
     recs = recordings()
     all_wires = sorted({m.value for e in enums.values() for m in e.__members__.values() if isinstance(m.value, str)})
